@@ -491,5 +491,13 @@ def check(src, rep, tier):
     rep.guard('C07.R5', r5_parts_are_isolated_views, src)
     rep.need('C07.R7', 2)
     rep.guard('C07.R7', r7_parts_own_their_cursor, src)
+    # the content queries answer from the package: each call builds its answer anew (a remembered paragraph or dictionary that a caller
+    # has edited would be what the next call returns -- not the packed fields); the opened tar reader of a part is the one cache by design
+    from . import common
+    rep.need('C07.R8', 6)
+    rep.guard('C07.R8', common.check_no_hidden_state, src, 'C07.R8',
+              ['debfile:DebControl.debcontrol', 'debfile:DebControl.scripts', 'debfile:DebControl.md5sums', 'debfile:DebFile.debcontrol', 'debfile:DebFile.scripts',
+               'debfile:DebFile.md5sums'],
+              'the second call returns what the caller made of the first answer, not the fields / scripts / sums packed in the archive')
     from . import common
     rep.guard('C07.R3', common.check_error_construction, src, 'C07.R3', 'debfile', None, 0)
